@@ -13,6 +13,7 @@ from __future__ import annotations
 
 import math
 import time
+import zlib
 from fractions import Fraction
 
 import z3
@@ -460,26 +461,38 @@ class Ctx:
         self.trace.append(('c', n, order[0]))
         return order[0]
 
+    def _pick(self, compute):
+        """a value picked from the current model; recorded so that replays ask the same questions"""
+        if self.pos < len(self.prefix):
+            ent = self.prefix[self.pos]
+            self.pos += 1
+            if ent[0] != 'v':
+                raise ReplayDivergence(f"expected {ent!r}, got a model pick")
+            self.trace.append(ent)
+            return ent[1]
+        v = compute()
+        self.trace.append(('v', v))
+        return v
+
     def concretize_int(self, lin, what="index"):
         """Fork over the feasible integer values of an (integer-valued) term."""
         while True:
-            v = lin.eval(self.model)
-            iv = int(v) if v.denominator == 1 else math.floor(v)
-            if self.branch(lin.add(Lin(Fraction(iv)), -1), OP_EQ):
+            iv = self._pick(lambda: math.floor(lin.eval(self.model)))
+            if self.branch(lin.add(Lin(iv), -1), OP_EQ):
                 return iv
 
     def ceil(self, lin):
         while True:
-            k = math.ceil(lin.eval(self.model))
+            k = self._pick(lambda: math.ceil(lin.eval(self.model)))
             # k-1 < x <= k
-            if self.branch(lin.add(Lin(Fraction(k)), -1), OP_LE) and not self.branch(lin.add(Lin(Fraction(k - 1)), -1), OP_LE):
+            if self.branch(lin.add(Lin(k), -1), OP_LE) and not self.branch(lin.add(Lin(k - 1), -1), OP_LE):
                 return k
 
     def floor(self, lin):
         while True:
-            k = math.floor(lin.eval(self.model))
+            k = self._pick(lambda: math.floor(lin.eval(self.model)))
             # k <= x < k+1
-            if self.branch(Lin(Fraction(k)).add(lin, -1), OP_LE) and self.branch(lin.add(Lin(Fraction(k + 1)), -1), OP_LT):
+            if self.branch(Lin(k).add(lin, -1), OP_LE) and self.branch(lin.add(Lin(k + 1), -1), OP_LT):
                 return k
 
     def quotient(self, num, den):
@@ -643,7 +656,8 @@ class ConcreteCtx:
 
 
 def _khash(key):
-    return hash(key) & 0xFFFFFFFFFFFF
+    # not Python's hash(): hash(-1) == hash(-2), and str hashes are salted per process
+    return zlib.crc32(repr(key).encode())
 
 
 def _holds(v, op):
@@ -1019,9 +1033,14 @@ class PathResult:
                  "witness", "logs", "notes", "model", "exc", "findings", "values", "choices", "nvars", "allvalues")
 
 
-def run_path(fn, prefix=(), model=None, seed=0, max_branch=200000, want_model=False):
+def _alarm(signum, frame):
+    raise PathBudget("path wall-clock timeout")
+
+
+def run_path(fn, prefix=(), model=None, seed=0, max_branch=200000, want_model=False, path_timeout=20.0):
     """Execute fn(ctx) along one path.  Returns PathResult."""
     global _CTX
+    import signal
     c = Ctx(prefix, model, max_branch=max_branch, seed=seed)
     _CTX = c
     res = PathResult()
@@ -1029,7 +1048,18 @@ def run_path(fn, prefix=(), model=None, seed=0, max_branch=200000, want_model=Fa
     res.label = None
     res.info = None
     try:
-        fn(c)
+        signal.signal(signal.SIGALRM, _alarm)
+        signal.setitimer(signal.ITIMER_REAL, path_timeout)
+    except ValueError:   # not in the main thread
+        pass
+    try:
+        try:
+            fn(c)
+        finally:
+            try:
+                signal.setitimer(signal.ITIMER_REAL, 0)
+            except ValueError:
+                pass
         res.status = "ok"
     except PathViolation as e:
         res.status = "violation"
